@@ -725,6 +725,71 @@ fn gen_root_alt(rng: &mut Rng, g: &QGen, nodes: &[&Node]) -> Option<String> {
     Some(format!("{s}\n"))
 }
 
+/// Family 9: the SAME capture name on alternation branches of different depth over a unary chain: a node
+/// and its same-extent only child (`[(atom) @x (atom (word) @x)]`), usually followed by a later sibling
+/// step so that both states are alive at the same step with captures that differ only in the node.
+fn gen_same_extent_alt(rng: &mut Rng, g: &QGen, nodes: &[&Node]) -> Option<String> {
+    let unary: Vec<&&Node> = nodes
+        .iter()
+        .filter(|n| {
+            !n.is_error()
+                && !n.is_missing()
+                && n.child_count() == 1
+                && n.child(0).map(|c| !c.is_error() && !c.is_missing() && c.start_byte() == n.start_byte() && c.end_byte() == n.end_byte()).unwrap_or(false)
+        })
+        .collect();
+    if unary.is_empty() {
+        return None;
+    }
+    let n = ***rng.pick(&unary);
+    let c = n.child(0)?;
+    let simple = |x: &Node| if x.is_named() { format!("({})", x.kind()) } else { quote(x.kind()) };
+    let head = |x: &Node| if x.is_named() { x.kind().to_string() } else { "_".to_string() };
+    let x1 = g.capture(rng);
+    let x2 = if rng.chance(4, 5) { x1.clone() } else { g.capture(rng) };
+    let outer = format!("{}{x1}", simple(&n));
+    // the inner branch binds the child, or (for a longer chain) the grandchild
+    let inner = match c.child(0) {
+        Some(d) if c.child_count() == 1 && !d.is_error() && !d.is_missing() && rng.chance(1, 3) => {
+            format!("({} ({} {}{x2}))", head(&n), head(&c), simple(&d))
+        }
+        _ => format!("({} {}{x2})", head(&n), simple(&c)),
+    };
+    let alt = match rng.below(3) {
+        0 => format!("[{outer} {inner}]"),
+        1 => format!("[{inner} {outer}]"),
+        _ => format!("[{outer} {inner} {}]", simple(&c)),
+    };
+    let altcap = if rng.chance(1, 4) { g.capture(rng) } else { String::new() };
+    match n.parent() {
+        Some(p) if !p.is_error() && rng.chance(4, 5) => {
+            let mut s = format!("({} {alt}{altcap}", p.kind());
+            // a later sibling step (any later sibling of n), sometimes anchored
+            let mut later = Vec::new();
+            let mut sib = n.next_sibling();
+            while let Some(x) = sib {
+                if !x.is_error() && !x.is_missing() {
+                    later.push(x);
+                }
+                sib = x.next_sibling();
+            }
+            if !later.is_empty() && rng.chance(4, 5) {
+                let l = *rng.pick(&later);
+                if rng.chance(1, 5) {
+                    s.push_str(" .");
+                }
+                s.push_str(&format!(" {}{}", simple(&l), g.capture(rng)));
+            }
+            s.push(')');
+            if rng.chance(1, 3) {
+                s.push_str(&g.capture(rng));
+            }
+            Some(format!("{s}\n"))
+        }
+        _ => Some(format!("{alt}{altcap}\n")),
+    }
+}
+
 fn gen_query(rng: &mut Rng, g: &mut QGen, tree: &Tree) -> Option<String> {
     let nodes = all_nodes(tree);
     let named: Vec<&Node> = nodes.iter().filter(|n| n.is_named() && !n.is_missing()).collect();
@@ -753,7 +818,7 @@ fn gen_query(rng: &mut Rng, g: &mut QGen, tree: &Tree) -> Option<String> {
             }
         }
     }
-    match rng.below(13) {
+    match rng.below(15) {
         0 => {
             if let Some(q) = gen_negated_family(rng, g, &named) {
                 return Some(q);
@@ -787,6 +852,12 @@ fn gen_query(rng: &mut Rng, g: &mut QGen, tree: &Tree) -> Option<String> {
         10 => {
             let all: Vec<&Node> = nodes.iter().collect();
             if let Some(q) = gen_root_alt(rng, g, &all) {
+                return Some(q);
+            }
+        }
+        11 | 12 => {
+            let all: Vec<&Node> = nodes.iter().collect();
+            if let Some(q) = gen_same_extent_alt(rng, g, &all) {
                 return Some(q);
             }
         }
